@@ -36,11 +36,11 @@ def hot_lines(results):
                     s = meta[r["case"]]["stmts"][r["si"]]
                     cls, types = s["cls"], s["types"]
                 lines.append({"e": e, "t": r["t"], "cls": cls, "fits": bool(r["fits"]), "case": r["case"], "si": r["si"], "rep": r["rep"]})
-                index.append((k, r["case"]))
+                index.append((k, r["case"] if r["case"] >= 0 else None))
             elif e == "LogEnd":
-                lines.append({"e": e, "t": r["t"]}); index.append((k, r["case"]))
+                lines.append({"e": e, "t": r["t"]}); index.append((k, r["case"] if r["case"] >= 0 else None))
             elif e in ("Alloc", "Mmap"):
-                lines.append({"e": e, "t": r["t"], "n": r["n"]}); index.append((k, r.get("case")))
+                lines.append({"e": e, "t": r["t"], "n": r["n"]}); index.append((k, r.get("case") if r.get("case", -1) >= 0 else None))
             elif e == "Format":
                 lines.append({"e": e, "t": r["t"], "kind": r["kind"]}); index.append((k, r.get("case")))
     return lines, index
@@ -64,9 +64,13 @@ def validate(ck, results, lines, index, depth=0):
     _, exe, cs, _, _ = by_k[k]
     case = next((c for c in cs if c["id"] == cid), None)
     if case is None:
-        raise vlib.Infra(f"HotPath rejected an event outside any case: {lines[at]}")
+        # the argument-less statement the runtime logs twice when the caller thread starts (case -1): a log call like any other
+        cid = -1
+        case = {"id": -1, "origin": "runtime", "cpp": 'LOG_INFO(h.logger, "calibrate");', "stmts": [
+            {"types": ["no-arguments"], "ctypes": [], "macro": "LOG_INFO", "cls": "covered"}]}
+        cid = -1
     # the rejection must repeat when the case runs alone (on the steady caller thread of a new process)
-    rc2, recs2 = codec.run_bin(exe, only=[cid])
+    rc2, recs2 = codec.run_bin(exe, only=[cid if cid >= 0 else -2])
     l2, i2 = hot_lines([(k, exe, cs, [], recs2)])
     r2 = sysh.validate_trace("HotPath", "HotPath.cfg", l2)
     if r2.error:
@@ -75,7 +79,7 @@ def validate(ck, results, lines, index, depth=0):
         at2 = r2.trace[-1]["l"] - 2
         bad = l2[at2]
         beg = next(x for x in reversed(l2[:at2 + 1]) if x["e"] == "LogBegin") if any(x["e"] == "LogBegin" for x in l2[:at2 + 1]) else {}
-        s = case["stmts"][beg.get("si", 0)] if beg.get("case", -1) >= 0 else case["stmts"][0]
+        s = case["stmts"][beg.get("si", 0)] if (beg.get("case", -1) >= 0 and cid >= 0) else case["stmts"][0]
         if bad["e"] == "Format":
             sg = f"format-{bad['kind']}-on-wrong-thread:{'+'.join(s['types'])}"
             text = f"case {cid}: user formatter of a {bad['kind']}-format type ran on thread {bad['t']} (argument types {s['ctypes']})"
@@ -91,7 +95,7 @@ def validate(ck, results, lines, index, depth=0):
         ck.drifted(f"rejection of case {cid} did not repeat in isolation")
     if depth < 40:
         b = at
-        while b < len(lines) and index[b] == (k, cid):
+        while b < len(lines) and index[b] == index[at]:
             b += 1
         # keep the thread states: restart the trace spec with the prefix events that establish them
         pre = [x for x, ix in zip(lines[:at], index[:at]) if ix[0] == k and x["e"] in ("Reset", "Backend", "ThreadStart", "Preallocate")]
@@ -132,19 +136,22 @@ def run(ck):
             nontriv = is_j and any(kk not in ("arith", "enum", "ptr") for kk in s["kinds"])
             ck.case((tuple(s["types"]), s["macro"].split("_")[0] + ("V" if s["macro"].startswith("LOGV") else "") + ("D" if s["dyn"] else "")), nontriv)
     # information only: allocations seen inside calls, per class and situation (judged calls must show none)
-    seen_allocs, win = {}, {}
+    seen_allocs, win, steady = {}, {}, set()
     for ln in lines:
         if ln["e"] == "Reset":
-            win = {}
+            win, steady = {}, set()
+        elif ln["e"] == "Preallocate":
+            steady.add(ln["t"])
         elif ln["e"] == "LogBegin":
-            win[ln["t"]] = ln
+            win[ln["t"]] = dict(ln, first=ln["t"] not in steady)
         elif ln["e"] == "LogEnd":
             win.pop(ln["t"], None)
+            steady.add(ln["t"])
         elif ln["e"] in ("Alloc", "Mmap") and ln["t"] in win:
             w = win[ln["t"]]
             key = w["cls"] if w["fits"] else w["cls"] + " (record does not fit)"
-            if w["case"] < 0:
-                key = "first call of the caller thread (calibration)"
+            if w["first"]:
+                key = "first log call of a thread (any class)"
             seen_allocs[key] = seen_allocs.get(key, 0) + 1
     ck.extra["alloc_events_inside_calls_by_class"] = seen_allocs
     inside = sum(1 for ln in lines if ln["e"] in ("Alloc", "Mmap"))
